@@ -381,6 +381,28 @@ fn handle(req: &Value) -> Value {
             let s = |r: &Result<Rcvar, JmespathError>| match r { Ok(v) => format!("{:?}", v), Err(e) => format!("ERR {:?}", e.reason) };
             json!({"kind": "ok", "equal": s(&used) == s(&fresh), "used": s(&used), "fresh": s(&fresh)})
         }
+        "deep" => {
+            // an expression with k levels of one nesting / chaining form: compile it, search null with it, drop it (stack exhaustion aborts the driver: the client sees that)
+            let k = req["k"].as_u64().unwrap() as usize;
+            let e = match req["form"].as_str().unwrap() {
+                "paren" => format!("{}a{}", "(".repeat(k), ")".repeat(k)),
+                "not" => format!("{}a", "!".repeat(k)),
+                "list" => format!("{}a{}", "[".repeat(k), "]".repeat(k)),
+                "hash" => format!("{}a{}", "{k:".repeat(k), "}".repeat(k)),
+                "dot" => format!("a{}", ".a".repeat(k)),
+                "pipe" => format!("a{}", "|a".repeat(k)),
+                "or" => format!("a{}", "||a".repeat(k)),
+                "index" => format!("a{}", "[0]".repeat(k)),
+                "flatten" => format!("a{}", "[]".repeat(k)),
+                "call" => format!("{}a{}", "abs(".repeat(k), ")".repeat(k)),
+                "expref" => format!("{}a{}", "map(&".repeat(k), ",@)".repeat(k)),
+                _ => return json!({"kind": "skipped"}),
+            };
+            match jmespath::compile(&e) {
+                Err(e) => err_json("compile-err", &e),
+                Ok(x) => { let r = x.search(to_var(&Value::Null)); let ok = r.is_ok(); drop(r); drop(x); json!({"kind": "ok", "search_ok": ok}) }
+            }
+        }
         "cli_oracle" => {
             // what jp must report for (expression, JSON text, flags), computed with the library in-process
             let e = req["expr"].as_str().unwrap();
